@@ -227,7 +227,7 @@ func Main(t *testing.T, h Hooks) {
 	HangHandler = func(sc *Scenario) {
 		if *flagReplay != "" {
 			// a hang with a live progress ticker cannot return through the bubble
-			fmt.Printf("REPLAY-VIOLATION %s/hang\nno progress possible before the fake-time watchdog (progress ticker alive)\n", p.ID)
+			fmt.Fprintf(ProcessStdout, "REPLAY-VIOLATION %s/hang\nno progress possible before the fake-time watchdog (progress ticker alive)\n", p.ID)
 			os.Exit(1)
 		}
 		cp := *sc
@@ -237,6 +237,42 @@ func Main(t *testing.T, h Hooks) {
 		writeStats(out, st)
 		os.Exit(3)
 	}
+
+	// real-time livelock monitor: one in-process run that is still under way
+	// after livelockLimit of wall-clock time, without the fake-time watchdog
+	// having fired, has a goroutine that runs without ever blocking
+	go func() {
+		limit := 150 * time.Second
+		if v, err := time.ParseDuration(os.Getenv("VERIF_LIVELOCK_LIMIT")); err == nil && v > 0 {
+			limit = v
+		}
+		var last uint64
+		since := time.Now()
+		for {
+			time.Sleep(time.Second)
+			cur := runSeq.Load()
+			if cur%2 == 0 || cur != last {
+				last, since = cur, time.Now()
+				continue
+			}
+			if time.Since(since) < limit {
+				continue
+			}
+			sc := runScenario.Load()
+			detail := fmt.Sprintf("one in-process run did not finish within %v of real time although fake time never reached the watchdog: a goroutine of git-sizer is running without ever blocking (livelock)", limit)
+			if *flagReplay != "" {
+				fmt.Fprintf(ProcessStdout, "REPLAY-VIOLATION %s/hang\n%s\n", p.ID, detail)
+				os.Exit(1)
+			}
+			cp := *sc
+			cp.Expect = &ExpectInfo{Class: p.ID + "/hang", Detail: detail}
+			f := filepath.Join(out, "violations", "livelock-"+sc.Hash()+".json")
+			cp.Save(f)
+			st.Violations = append(st.Violations, ViolationRecord{Class: p.ID + "/hang", Detail: detail, File: f})
+			writeStats(out, st)
+			os.Exit(3)
+		}
+	}()
 
 	if *flagDigests != "" {
 		digestFile, _ = os.Create(*flagDigests)
